@@ -250,6 +250,7 @@ def run_der_class(spec, ctx, L, H, cname):
 
         # ---- calibration on valid encodings
         ctx.op("dec_der", cname, "calibrate")
+        excluded = []
         for v in variants:
             nr, oi = v[3], v[4]
             for e in corpus:
@@ -258,7 +259,7 @@ def run_der_class(spec, ctx, L, H, cname):
                     ok = (nr is None or len(members) in (nr if isinstance(nr, tuple) else (nr,))) and \
                         (not oi or (members and all(t == 2 and not (raw[2] & 0x80) for t, raw in members)))
                     if not ok:
-                        go(v, e, "valid-but-excluded-by-arguments")
+                        excluded.append((v, e))
                         continue
                 for _ in range(2):
                     go(v, e, "valid", expect="accept", calibrate=True, producer="ref-strict")
@@ -269,6 +270,8 @@ def run_der_class(spec, ctx, L, H, cname):
         alld = [v[0] for v in variants] + [d for d, _ in tagged]
         if not H.calibrated_or_inconclusive(alld):
             return None
+        for v, e in excluded:
+            go(v, e, "valid-but-excluded-by-arguments")
         # ---- root-level refusal classes, class specific content damage, structure-aware mutations
         ctx.op("dec_der", cname, "mutations")
         for e in corpus:
@@ -600,9 +603,9 @@ def w_dec_pkcs8(spec, ctx, L, H):
     cp = der.enc_oid("1.2.840.10045.3.1.7")
     clear.append((D.Entry("p8:clear-oid-params", "der", PKCS8.wrap(key_a, EC_OID, key_params=asn1.DerObjectId("1.2.840.10045.3.1.7")), schema_max=4), (EC_OID, key_a, cp)))
     clear.append((D.Entry("p8:clear-v1-attributes+public(ref)", "der",
-                          kf.pkcs8_wrap("1.3.101.112", key_b, None, version=1, public_key=bytes(32), attributes_der=der.enc_tagged(0, der.enc_seq([]), explicit=False)),
+                          kf.pkcs8_wrap("1.3.101.112", key_b, None, version=1, public_key=bytes(32), attributes_der=der.enc_tagged(0, der.enc_set_of([der.enc_seq([der.enc_oid("2.5.29.15"), der.enc_set_of([der.enc_bitstring(b"\x80", 7)])])]), explicit=False)),
                           schema_max=5, producer="ref"), ("1.3.101.112", key_b, None)))
-    clear.append((D.Entry("p8:clear-v0-attributes(ref)", "der", kf.pkcs8_wrap(RSA_OID, key_a, der.enc_null(), attributes_der=der.enc_tagged(0, b"", explicit=False)),
+    clear.append((D.Entry("p8:clear-v0-attributes(ref)", "der", kf.pkcs8_wrap(RSA_OID, key_a, der.enc_null(), attributes_der=der.enc_tagged(0, der.enc_set_of([]), explicit=False)),
                           schema_max=4, producer="ref"), (RSA_OID, key_a, None)))
     inner = PKCS8.wrap(key_a, RSA_OID)
     exp = (RSA_OID, key_a, None)
@@ -675,6 +678,7 @@ def w_dec_pkcs8(spec, ctx, L, H):
             go(u1, D.reencrypt(L, e, M.extra_members(inner, 4)), "extra-member(inside-encryption)", expect=("refuse", "extra-member"))
         h = D.hostile_pbes2(e.data)
         if h:
+            ctx.count("hostile_cost_inputs_without_passphrase")
             go(u0, h, "kdf-cost=2^31")
             go(u1, h, "kdf-cost=2^31")
             go(p1 if scheme == 1 else p2, h, "kdf-cost=2^31")
